@@ -1,7 +1,9 @@
 (* Correspondence for C05.  Cases carry the inputs and the observations made on the real
    pubsub.Queue; the model (Model/QueueHeap.v) is re-run here by vm_compute.
 
-   CNew   constructor decision: NewQueue(opts) succeeded iff validate_opts accepts
+   CNew   constructor: NewQueue(opts) succeeded iff validate_opts accepts, and then the tracker's
+          softQuota / hardLimit and the decisions "initial credit < k" (k = 1..) agree with the model's
+          Validate defaults (never the float itself)
    CSeq   sequential differential: ops in try-form (blocking ops with a cancelled context);
           per step the result, Len() and tracker.cap() (= soft quota) observed on the implementation;
           at the end the implementation's item walk.  Checked against BOTH the pointer-level model
@@ -35,11 +37,13 @@ Record hop := mkHop { h_op : qop; h_res : qres; h_inv : Z; h_ret : Z }.
 
 Inductive case :=
 | CNew (id : Z) (hl sq : Z) (bc : float) (accepted : bool)
+       (sq_obs hl_obs : Z)            (* tracker fields after NewQueue (0 0 when rejected) *)
+       (credit_lt : list bool)        (* decisions "credit < k" for k = 1, 2, ... on the initial credit *)
 | CSeq (id : Z) (cfg : qcfg) (ops : list qop) (obs : list (qres * Z * Z)) (final : list Z)
 | CHist (id : Z) (cfg : qcfg) (h : list hop) (order : list nat).
 
 Definition case_id (c : case) : Z :=
-  match c with CNew id _ _ _ _ => id | CSeq id _ _ _ _ => id | CHist id _ _ _ => id end.
+  match c with CNew id _ _ _ _ _ _ _ => id | CSeq id _ _ _ _ => id | CHist id _ _ _ => id end.
 
 Definition qerr_eqb (a b : qerr) : bool :=
   match a, b with
@@ -108,8 +112,15 @@ Definition hist_ok (t : tracker) (h : list hop) (order : list nat) : bool :=
 
 Definition check_case (c : case) : bool :=
   match c with
-  | CNew _ hl sq bc acc =>
-      Bool.eqb acc (match validate_opts hl sq bc with Some _ => true | None => false end)
+  | CNew _ hl sq bc acc sq_obs hl_obs clt =>
+      match validate_opts hl sq bc with
+      | None => negb acc
+      | Some (Quota sq' hl' l cr) =>
+          acc && Z.eqb sq' sq_obs && Z.eqb hl' hl_obs && Z.eqb l 0 &&
+          list_eqb Bool.eqb clt
+            (map (fun k => PrimFloat.ltb cr (z2f (Z.of_nat k))) (seq 1 (length clt)))
+      | Some _ => false
+      end
   | CSeq _ cfg ops obs final =>
       match cfg_tracker cfg with
       | None => false
